@@ -1565,3 +1565,20 @@ def m_try_into(I, st, fr, args, path, gargs, t):
     if len(tys) >= 2 and tys[0] in INT_RANGES and tys[1] in INT_RANGES:
         return m_try_from_int(I, st, fr, args, 'core::convert::num::<impl core::convert::TryFrom<%s> for %s>::try_from' % (tys[0], tys[1]), gargs, t)
     raise Stop('try_into %s' % (gargs,))
+
+
+# ----------------------------------------------------------------------------- Hash: the sequence of primitive values fed to the hasher (ghost trace)
+def _hash_feed(I, st, v):
+    if isinstance(v, Int):
+        st.ghost = dict(st.ghost, hashed=tuple(st.ghost.get('hashed', ())) + ((v.ty, pfreeze(st.norm(v.p))),))
+    elif isinstance(v, Agg) and v.kind == 'tuple':
+        for f in v.fields:          # the tuple impls of core hash their elements in order
+            _hash_feed(I, st, f)
+    else:
+        raise Stop('Hash::hash of %r' % (v,))
+
+
+@model(r'core::hash::impls::<impl core::hash::Hash for (' + INT + r'|\(T, B\)|\(T, B, C\))>::hash')
+def m_hash_prim(I, st, fr, args, path, gargs, t):
+    _hash_feed(I, st, deref(I, st, args[0]))
+    return UNIT
